@@ -14,7 +14,8 @@ EXPLANATION = (
     "v*2^n_frac in binary64."
     ' Added after the third round of seeded changes: read-back is code*2^-n_frac for every n_frac (C16.R2) and the inaccuracy comparison is made on the value just stored (C04.R2).'
     ' Added after the fourth round of seeded changes: resize restores scaled objects through the read map and unscaled ones without a cast (C17.R2, C10.R1); the re-scaling routes leave quantization to the destination (C10.R1/R2); C20.R8 objects carry only the documented attributes and no function writes module-level containers (no caches / memos that go stale).'
-    " Added after the fifth round of seeded changes: C17.R8 incl. 'the float promotion covers a float bias'; C04.R7; C20.R8 also forbids mutable default arguments and private attributes hung on operands (x._cache, x.__dict__[...]).")
+    " Added after the fifth round of seeded changes: C17.R8 incl. 'the float promotion covers a float bias'; C04.R7; C20.R8 also forbids mutable default arguments and private attributes hung on operands (x._cache, x.__dict__[...])."
+    ' Added after the sixth round of seeded changes: functions.fxp_like stores into a copy of its reference (format and modes), never into an object rebuilt from the sizes alone (C10.R2).')
 ASSUMPTIONS = ["np.floor/ceil/trunc/fix/around are monotone, identity on integers, |r-v|<1 (around: <=1/2, ties to even)"]
 TRUSTED = ["CPython ast", "lemma table of rounding primitives"]
 
